@@ -89,6 +89,28 @@ Theorem C14_lcp :
 Proof. exact lcp_all_spec. Qed.
 Print Assumptions C14_lcp.
 
+(* LIST MODE, first step of complete_line (Editor.list_span_step; what follows it -- beep, a second Tab listing the
+   candidates -- does not touch the line): when the longest common prefix is longer than the span, or there is one
+   candidate, exactly the span is replaced by it, text before and after intact, cursor after it ... *)
+Theorem C14_list_span_extends :
+  forall (U : UData) (cfg : config) (s : est) start cands lcp l w r,
+  lcp_all cands = Some lcp -> blen w < blen lcp \/ length cands = 1 ->
+  buf (e_line s) = l ++ w ++ r -> start = blen l -> pos (e_line s) = blen l + blen w ->
+  exists s', list_span_step U cfg start cands s = EOk tt s'
+             /\ buf (e_line s') = l ++ lcp ++ r /\ pos (e_line s') = blen l + blen lcp
+             /\ e_hist s' = e_hist s /\ grow (e_line s') = grow (e_line s).
+Proof. exact list_span_extends. Qed.
+Print Assumptions C14_list_span_extends.
+
+(* ... and when it does not extend the span (or there is no common prefix) nothing changes at all *)
+Theorem C14_list_span_keeps :
+  forall (U : UData) (cfg : config) (s : est) start cands,
+  (lcp_all cands = None
+   \/ exists lcp, lcp_all cands = Some lcp /\ blen lcp <= pos (e_line s) - start /\ length cands <> 1) ->
+  list_span_step U cfg start cands s = EOk tt s.
+Proof. exact list_span_keeps. Qed.
+Print Assumptions C14_list_span_keeps.
+
 (* non-vacuity: "cd fo| | wc", candidates foobar, foobaz: Tab Tab shows foobaz in place; Enter keeps it *)
 Example C14_example :
   let cfg := mk_config Emacs CTCircular true 80 true [[102;111;111;98;97;114]; [102;111;111;98;97;122]]%N [] VKNone [] in
